@@ -108,3 +108,31 @@ def github_logins_normalised():
         if a != b:
             bad.append({'login': login, 'pull_request_author': a, 'comment_author': b})
     return [('GitHub PullRequest.author and Comment.author normalise logins the same way', not bad, bad)]
+
+
+def jobs_do_not_share_settings():
+    """each job has its own per-job settings mapping (options set by the comments of one pull request must not be seen
+    by the next job of the same process)"""
+    from types import SimpleNamespace
+    from bert_e.job import Job
+    b = SimpleNamespace(settings={})
+    j1, j2 = Job(bert_e=b), Job(bert_e=b)
+    j1.settings['bypass_peer_approval'] = True
+    leaked = 'bypass_peer_approval' in j2.settings and j2.settings['bypass_peer_approval'] is True
+    return [('two jobs created without explicit settings do not share their settings mapping',
+             j1.settings.maps[0] is not j2.settings.maps[0] and not leaked, {'leaked': leaked})]
+
+
+def task_queue_unbounded():
+    """put_job is called from webhook threads AND from the worker itself (rebuild_queues): a bounded queue would let
+    the worker block on its own queue"""
+    import ast as _ast
+    src = open('/repo/bert_e/bert_e.py').read()
+    bad = []
+    for node in _ast.walk(_ast.parse(src)):
+        if isinstance(node, _ast.Assign) and any(isinstance(t, _ast.Attribute) and t.attr == 'task_queue' for t in node.targets):
+            v = node.value
+            if not (isinstance(v, _ast.Call) and getattr(v.func, 'id', getattr(v.func, 'attr', '')) == 'Queue'
+                    and not v.args and not v.keywords):
+                bad.append(_ast.unparse(node))
+    return [('BertE.task_queue is an unbounded Queue()', not bad, bad)]
